@@ -23,6 +23,10 @@ def check(run, prog, tier):
     run.rule("C12-d", "process_user_command returns 0 only when get_user_command found nothing: every return reachable after a command was taken is non-zero", 1)
     run.rule("C12-c", "HAS_CMD_TURN is set only by the grant loop and cleared only by get_user_command; only get_user_command reads it", 2)
 
+    import rules.scanfns as scanfns
+    SCANNERS, TAKERS = scanfns.find(prog.unit("src/comm.c"))
+    run.need(SCANNERS and TAKERS, "buffer scan functions of src/comm.c (the complete-command test and the function that takes the first command)")
+    run.note("buffer scan functions by role: scanners %s, takers %s" % (sorted(SCANNERS), sorted(TAKERS)))
     be = run.need(prog.funci("backend"), "backend")
     guc = run.need(prog.funci("get_user_command", "src/comm.c"), "get_user_command")
     run.saw(be)
@@ -79,7 +83,7 @@ def check(run, prog, tier):
     has_turn = any(t and mentions(c, "HAS_CMD_TURN") for c, t in g)
     in_buf = any(t and mentions(c, "CMD_IN_BUF") for c, t in g)
     # user_command comes from first_cmd_in_buf
-    from_first = any(n.get("k") == "Asg" and strip(n["L"]).get("n") == "user_command" and strip(n["R"]).get("fn") == "first_cmd_in_buf" and guc.dominates(b.id, cb.id) for b, i, n in guc.nodes())
+    from_first = any(n.get("k") == "Asg" and strip(n["L"]).get("n") == "user_command" and strip(n["R"]).get("fn") in TAKERS and guc.dominates(b.id, cb.id) for b, i, n in guc.nodes())
     run.ob("C12-b", "consume-guard", has_cmd and has_turn and from_first, "consume under: complete command (%s, from first_cmd_in_buf %s), turn held (%s), CMD_IN_BUF (%s)" % (has_cmd, from_first, has_turn, in_buf),
            guc.file, cn.get("l"), "get_user_command", what="get_user_command consumes a turn without a complete command and a held turn")
     # the no-turn edge: from the false edge of the HAS_CMD_TURN test, the next loop iteration is reached without next_cmd_in_buf / clearing CMD_IN_BUF / consuming
@@ -260,7 +264,7 @@ def check(run, prog, tier):
             for c, t, B in cfgq.guards(f, b.id):
                 c0, t = normalize_cond(c, t)
                 c0 = strip(c0)
-                if not t and c0.get("k") == "Call" and c0.get("fn") in ("cmd_in_buf", "first_cmd_in_buf"):
+                if not t and c0.get("k") == "Call" and c0.get("fn") in (SCANNERS | TAKERS):
                     ok = True
                 if not t and c0.get("k") == "Ref" and any(n2.get("k") == "Asg" and strip(n2["L"]).get("id") == c0.get("id") and strip(n2["R"]).get("k") == "Call" and strip(n2["R"]).get("fn") in ("first_cmd_in_buf", "cmd_in_buf") for b2, i2, n2 in f.nodes()):
                     ok = True
